@@ -629,6 +629,11 @@ where
 	// greedy. But if max_outputs(500) is actually not enough to cover the whole
 	// amount, the wallet should allow going over it to satisfy what the user
 	// wants to send. So the wallet considers max_outputs more of a soft limit.
+	// A limit of zero inputs can never be satisfied (and `windows(0)` would panic):
+	// report that nothing can be selected.
+	if max_outputs == 0 {
+		return (max_available, vec![]);
+	}
 	if eligible.len() > max_outputs {
 		for window in eligible.windows(max_outputs) {
 			let windowed_eligibles = window.to_vec();
